@@ -1042,6 +1042,8 @@ class Value(Term):
         # can't use == as that builds a larger expression
         if not isinstance(other, Value):
             return False
+        if type(self.value) is not type(other.value):
+            return False  # 1, 1.0 and True print (and translate to SQL) differently
         return self.value == other.value
 
     def act_on(self, arg, *, expr_walker: ExpressionWalker):
